@@ -1,10 +1,13 @@
 #!/bin/bash
 # usage: tryseed.sh <property> <patch.diff> [check args...]
-# applies the patch to /repo, runs the check, always restores /repo.
-P=$1; PATCH=$2; shift 2
-cd /repo || exit 2
-if [ -n "$(git status --porcelain)" ]; then echo "/repo not clean"; exit 2; fi
-git apply "$PATCH" || { echo "patch does not apply"; exit 2; }
-trap 'git -C /repo checkout -- . ; git -C /repo clean -fdq' EXIT
-cd /verif && ./bin/check $P "$@"
+# Applies the patch to a scratch worktree of /repo's HEAD (so that nothing else
+# using /repo is disturbed), runs the check against it (VERIF_REPO), removes
+# the worktree.
+P=$1; PATCH=$(readlink -f "$2"); shift 2
+WT=$(mktemp -d /tmp/wt-try-XXXXXX)
+rmdir $WT
+git -C /repo worktree add -q --detach $WT HEAD || exit 2
+trap 'git -C /repo worktree remove --force '$WT' 2>/dev/null; rm -rf '$WT EXIT
+(cd $WT && git apply "$PATCH") || { echo "patch does not apply"; exit 2; }
+cd /verif && VERIF_REPO=$WT ./bin/check $P "$@"
 echo "exit=$?"
